@@ -106,11 +106,27 @@ def prep_fn(name):
 
 
 def build_dataset(case):
+  """Returns (raw examples handed to fedjax, the dataset, the effective rows).
+
+  `slice`: the dataset under test is ds[start:stop:step] (the documented way to
+  look at part of a client dataset); the effective rows are computed by plain
+  numpy slicing.  `warm`: every intermediate preprocessor of the chain is used
+  once before the next function is appended (append() must return a NEW
+  preprocessor that applies the whole chain, whatever was called before).
+  """
   raw = build_raw(case)
   prep = cds.BatchPreprocessor()
   for p in case['preps']:
     prep = prep.append(prep_fn(p))
-  return raw, fedjax.ClientDataset(raw, prep)
+    if case.get('warm') and case['n'] > 0:
+      prep({k: v[:1] for k, v in raw.items()})
+  ds = fedjax.ClientDataset(raw, prep)
+  eff = raw
+  if case.get('slice'):
+    sl = slice(*case['slice'])
+    ds = ds[sl]
+    eff = {k: v[sl] for k, v in raw.items()}
+  return raw, ds, eff
 
 
 def reference_rows(case, raw):
@@ -147,7 +163,7 @@ def ref_final_size(r, b, k):
 
 
 def check_partition(case, batches, ref, padded):
-  n, b = case['n'], case['batch_size']
+  b = case['batch_size']
   feats = set(ref)
   pos = 0
   nb = len(batches)
@@ -192,10 +208,11 @@ def check_partition(case, batches, ref, padded):
 
 
 def run_plain(case):
-  raw, ds = build_dataset(case)
+  raw, ds, eff = build_dataset(case)
   before = raw_digest(raw)
-  ref = reference_rows(case, raw)
-  n, b, drop = case['n'], case['batch_size'], case['drop_remainder']
+  ref = reference_rows(case, eff)
+  n, b, drop = len(eff['id']), case['batch_size'], case['drop_remainder']
+  require(len(ds) == n, 'dataset_len', f'{len(ds)} vs {n}')
   if case['call'] == 'kwargs':
     view = ds.batch(batch_size=b, drop_remainder=drop)
   elif case['call'] == 'override':
@@ -218,15 +235,17 @@ def run_plain(case):
   require(len(again) == len(batches) and all(
       set(x) == set(y) and all(same_array(np.asarray(x[k]), np.asarray(y[k])) for k in x)
       for x, y in zip(batches, again)), 'second_iteration_differs')
-  require(raw_digest(ds.raw_examples) == before and ds.raw_examples is raw,
-          'dataset_mutated')
+  require(raw_digest(raw) == before and
+          (case.get('slice') is not None or ds.raw_examples is raw) and
+          raw_digest(ds.raw_examples) == raw_digest(eff), 'dataset_mutated')
 
 
 def run_padded(case):
-  raw, ds = build_dataset(case)
+  raw, ds, eff = build_dataset(case)
   before = raw_digest(raw)
-  ref = reference_rows(case, raw)
-  n, b, k = case['n'], case['batch_size'], case['buckets']
+  ref = reference_rows(case, eff)
+  n, b, k = len(eff['id']), case['batch_size'], case['buckets']
+  require(len(ds) == n, 'dataset_len', f'{len(ds)} vs {n}')
   if case['call'] == 'kwargs':
     view = ds.padded_batch(batch_size=b, num_batch_size_buckets=k)
   elif case['call'] == 'override':
@@ -248,8 +267,9 @@ def run_padded(case):
   require(len(again) == len(batches) and all(
       set(x) == set(y) and all(same_array(np.asarray(x[f]), np.asarray(y[f])) for f in x)
       for x, y in zip(batches, again)), 'second_iteration_differs')
-  require(raw_digest(ds.raw_examples) == before and ds.raw_examples is raw,
-          'dataset_mutated')
+  require(raw_digest(raw) == before and
+          (case.get('slice') is not None or ds.raw_examples is raw) and
+          raw_digest(ds.raw_examples) == raw_digest(eff), 'dataset_mutated')
 
 
 def run_final_size(case):
@@ -285,6 +305,12 @@ def case_strategy(draw, tier, padded):
   preps = draw(st.lists(st.sampled_from(PREPS), min_size=0, max_size=3))
   case = {'n': n, 'batch_size': b, 'features': feats, 'preps': preps,
           'call': draw(st.sampled_from(['kwargs', 'hparams', 'override']))}
+  if draw(st.integers(0, 3)) == 0:
+    bound = st.one_of(st.none(), st.integers(-n - 2, n + 2))
+    step = draw(st.sampled_from([None, 1, 2, 3, -1, -2, 5]))
+    case['slice'] = [draw(bound), draw(bound), step]
+  if preps and draw(st.booleans()):
+    case['warm'] = True
   if padded:
     case['buckets'] = draw(st.integers(1, 8))
   else:
@@ -292,9 +318,20 @@ def case_strategy(draw, tier, padded):
   return case
 
 
+def _eff_n(case):
+  n = case['n']
+  return len(range(*slice(*case['slice']).indices(n))) if case.get('slice') else n
+
+
 def labels(case):
-  n, b = case['n'], case['batch_size']
+  n, b = _eff_n(case), case['batch_size']
   ls = []
+  if case.get('slice'):
+    ls.append('sliced_dataset')
+    if case['slice'][2] not in (None, 1):
+      ls.append('slice_step!=1')
+  if case.get('warm'):
+    ls.append('preprocessor_used_before_append')
   ls.append('N=0' if n == 0 else ('B>N' if b > n else ('B|N' if n % b == 0 else 'B∤N')))
   if case.get('buckets', 1) > 1:
     ls.append('buckets>1')
@@ -312,7 +349,7 @@ def labels(case):
 
 
 def nontrivial(case, ls):
-  n, b = case['n'], case['batch_size']
+  n, b = _eff_n(case), case['batch_size']
   return n > 0 and (n % b != 0 or b > n or
                     (case.get('buckets', 1) > 1 and (b & (b - 1)) != 0))
 
